@@ -308,6 +308,16 @@ impl Recorder
         self.inner.lock().unwrap().violations.iter().any(|v| v.0 == part && v.1 == sig)
     }
 
+    pub fn cases(&self) -> u64
+    {
+        self.inner.lock().unwrap().cases
+    }
+
+    pub fn violation_count(&self) -> usize
+    {
+        self.inner.lock().unwrap().violations.len()
+    }
+
     pub fn has_violation(&self) -> bool
     {
         !self.inner.lock().unwrap().violations.is_empty()
